@@ -379,3 +379,121 @@ def failed_choice_invisible(rep):
                                             f"{json.dumps(control[k])[:300]} vs {json.dumps(failed[k])[:300]}")})
     rep.coverage.setdefault("families", {})["c15-aftermath"] = {"cases": n}
     rep.coverage["evaluations"] = rep.coverage.get("evaluations", 0) + n
+
+
+EXOTIC = ["RuntimeError", "StopIteration", "AssertionError", "OSError", "GameError", "NotImplementedError", "RecursionError", "MemoryError",
+          "EOFError", "ImportError", "BufferError", "ReferenceError", "UserWarning", "StopAsyncIteration", "KeyError", "ZeroDivisionError",
+          "UnicodeError", "TimeoutError", "FloatingPointError"]
+
+
+def exotic_failures(rep, pid):
+    """author code may fail with ANY exception class (host functions and game classes raise their own): a choice condition
+    hides the choice, a branch condition skips the branch, a display expression becomes a marker, a failing statement surfaces
+    as RuntimeError / ValueError - also when the values involved cannot even be printed (a __repr__ that raises)"""
+    from bardic.runtime.engine import BardEngine
+    from common import quiet
+
+    class GameError(Exception):
+        pass
+
+    def boom(kind):
+        raise {"GameError": GameError}.get(kind) or getattr(__import__("builtins"), kind)(f"{kind} from game logic")
+
+    class Lamp:
+        def __init__(self, capacity):
+            self.capacity = capacity
+            self.level = 3
+
+        def burn(self):
+            self.level = self.level - 6 // self.capacity
+
+        def __repr__(self):
+            return f"Lamp({self.level * 100 // self.capacity}%)"
+
+    class Sneaky:
+        def __bool__(self):
+            raise GameError("no truth value")
+
+        def __str__(self):
+            raise GameError("no text")
+
+        def __format__(self, spec):
+            raise GameError("no format")
+
+    fam = pid.lower() + "-exotic"
+    conds = "".join(f"+ {{boom('{k}')}} [hidden {k}] -> Start\n" for k in EXOTIC)
+    shows = "".join(f"v{j} {{boom('{k}')}} end{j}\n@if boom('{k}'):\n  never{j}\n@elif True:\n  taken{j}\n@endif\n" for j, k in enumerate(EXOTIC))
+    src = (":: Start\n~ lamp = Lamp(0)\n~ sneaky = Sneaky()\n~ turns = 0\nHub\n" + conds + "+ {sneaky} [hidden truth] -> Start\n+ [ok] -> Show\n+ [burn] -> Burn\n+ [fmt] -> Fmt\n\n"
+           ":: Show\n~ turns = turns + 1\n" + shows + "{boom('OSError') ? yes | no} tail\n+ [back] -> Hub2\n\n"
+           ":: Hub2\nhub2 {turns}\n+ [burn] -> Burn\n+ [call] -> Call(boom('GameError'))\n+ [dflt] -> Dflt\n+ [ok] -> Show\n\n"
+           ":: Burn\n~ lamp.burn()\nnever\n\n:: Call(x)\nnever {x}\n\n:: Dflt(x=boom('StopIteration'))\nnever {x}\n\n"
+           ":: Fmt\nshown {sneaky} and {sneaky:>4} and {lamp} end\n+ [back] -> Hub2\n")
+    n = 0
+
+    def fail(what, **kw):
+        rep.violations.append(dict({"cls": None, "family": fam, "what": what, "source": src,
+                                    "context": "boom(kind) raises the named exception class; Lamp(0).burn() and repr(Lamp(0)) divide by zero; Sneaky() raises GameError from __bool__/__str__/__format__"}, **kw))
+    try:
+        story = corr_play.compile_source(src)
+    except Exception as ex:  # noqa
+        fail(f"probe story does not compile: {ex}")
+        return
+    try:
+        with quiet():
+            e = BardEngine(copy.deepcopy(story), context={"boom": boom, "Lamp": Lamp, "Sneaky": Sneaky})
+            start = e.current()
+    except BaseException as ex:  # noqa
+        fail(f"constructing the engine raised {type(ex).__name__}: {str(ex)[:160]} (a choice condition that cannot be evaluated hides the choice)")
+        return
+    n += 1
+    texts = [c["text"] for c in start.choices]
+    if texts != ["ok", "burn", "fmt"]:
+        fail(f"offered {texts}; the conditions of all other choices raise, so exactly ['ok', 'burn', 'fmt'] are on offer")
+        return
+
+    def step(label, i, expect_raise=False):
+        nonlocal n
+        n += 1
+        try:
+            with quiet():
+                out = e.choose(i)
+        except (RuntimeError, ValueError) as ex:
+            if not expect_raise:
+                fail(f"{label}: choose raised {type(ex).__name__}: {str(ex)[:160]}")
+            return None
+        except BaseException as ex:  # noqa
+            fail(f"{label}: choose raised {type(ex).__name__} ({str(ex)[:120]}); a failure of author code surfaces as RuntimeError or ValueError")
+            return None
+        if expect_raise:
+            fail(f"{label}: the failing statement / argument was silently discarded (shown: {out.content[:80]!r})")
+        return out
+    out = step("display expressions and branch conditions that raise", 0)
+    if out is not None:
+        for j, k in enumerate(EXOTIC):
+            seg = out.content.split(f"v{j} ", 1)[-1].split(f"end{j}", 1)[0]
+            if "{ERROR" not in seg or f"end{j}" not in out.content:
+                fail(f"a display expression raising {k} shows {seg!r} instead of an inline {{ERROR...}} marker")
+            if f"never{j}" in out.content or f"taken{j}" not in out.content:
+                fail(f"a branch condition raising {k} did not skip its branch (the next branch must be taken)")
+        if "tail" not in out.content:
+            fail("an inline conditional whose condition raises swallowed the rest of the line")
+        out = step("back", 0)
+    if out is not None and [c["text"] for c in out.choices] == ["burn", "call", "dflt", "ok"]:
+        before = out.content
+        for label, i in (("a statement whose failure cannot even be described (repr of the value raises too)", 0),
+                         ("an argument expression raising a game exception", 1), ("a default expression raising StopIteration", 2)):
+            step(label, i, expect_raise=True)
+            with quiet():
+                cur = e.current()
+            if cur.content != before or cur.passage_id != "Hub2":
+                fail(f"after the failed choice ({label}) the engine shows {cur.passage_id}: {cur.content[:60]!r}; the screen before it must still be there")
+                break
+        step("the engine is usable after the failures", 3)
+    with quiet():
+        e2 = BardEngine(copy.deepcopy(story), context={"boom": boom, "Lamp": Lamp, "Sneaky": Sneaky})
+    e = e2
+    out = step("values whose str()/format() raise", 2)
+    if out is not None and (out.content.count("{ERROR") < 2 or "end" not in out.content):
+        fail(f"display expressions whose value cannot be turned into text show {out.content!r} instead of inline markers")
+    rep.coverage.setdefault("families", {})[fam] = {"calls": n, "exception_classes": EXOTIC}
+    rep.coverage["evaluations"] = rep.coverage.get("evaluations", 0) + n
